@@ -36,6 +36,36 @@
 /* Private definitions                                                        */
 /*============================================================================*/
 
+/**
+ * Copies a scalar for processing, reducing it modulo the group order when it is
+ * longer than the order: the recodings, ladders and precomputed tables below
+ * cover the bit length of the order only.
+ *
+ * @param[out] m			- the scalar to process.
+ * @param[in] k				- the scalar given by the caller.
+ */
+static void eb_mul_red(bn_t m, const bn_t k) {
+	bn_t n;
+
+	bn_null(n);
+
+	RLC_TRY {
+		bn_new(n);
+		eb_curve_get_ord(n);
+		if (bn_bits(k) > bn_bits(n)) {
+			bn_mod(m, k, n);
+		} else {
+			bn_copy(m, k);
+		}
+	}
+	RLC_CATCH_ANY {
+		RLC_THROW(ERR_CAUGHT);
+	}
+	RLC_FINALLY {
+		bn_free(n);
+	}
+}
+
 #if EB_MUL == LWNAF || !defined(STRIP)
 
 #if defined(EB_KBLTZ)
@@ -710,6 +740,10 @@ void eb_mul_lodah(eb_t r, const eb_t p, const bn_t k) {
 		bits = bn_bits(n);
 
 		bn_abs(t, k);
+		if (bn_bits(t) > bits) {
+			/* The ladder below runs over the bit length of the order. */
+			bn_mod(t, t, n);
+		}
 		bn_add(t, t, n);
 		bn_add(n, t, n);
 		dv_swap_sec(t->dp, n->dp, RLC_MAX(t->used, n->used),
@@ -855,21 +889,39 @@ void eb_mul_lodah(eb_t r, const eb_t p, const bn_t k) {
 #if EB_MUL == LWNAF || !defined(STRIP)
 
 void eb_mul_lwnaf(eb_t r, const eb_t p, const bn_t k) {
+	bn_t m;
+
 	if (bn_is_zero(k) || eb_is_infty(p)) {
 		eb_set_infty(r);
 		return;
 	}
 
-#if defined(EB_KBLTZ)
-	if (eb_curve_is_kbltz()) {
-		eb_mul_ltnaf_imp(r, p, k);
-		return;
-	}
-#endif
+	bn_null(m);
 
-#if defined(EB_PLAIN)
-	eb_mul_lnaf_imp(r, p, k);
+	RLC_TRY {
+		bn_new(m);
+		eb_mul_red(m, k);
+		if (bn_is_zero(m)) {
+			eb_set_infty(r);
+		} else {
+#if defined(EB_KBLTZ)
+			if (eb_curve_is_kbltz()) {
+				eb_mul_ltnaf_imp(r, p, m);
+			}
 #endif
+#if defined(EB_PLAIN)
+			if (!eb_curve_is_kbltz()) {
+				eb_mul_lnaf_imp(r, p, m);
+			}
+#endif
+		}
+	}
+	RLC_CATCH_ANY {
+		RLC_THROW(ERR_CAUGHT);
+	}
+	RLC_FINALLY {
+		bn_free(m);
+	}
 }
 
 #endif
@@ -877,27 +929,45 @@ void eb_mul_lwnaf(eb_t r, const eb_t p, const bn_t k) {
 #if EB_MUL == RWNAF || !defined(STRIP)
 
 void eb_mul_rwnaf(eb_t r, const eb_t p, const bn_t k) {
+	bn_t m;
+
 	if (bn_is_zero(k) || eb_is_infty(p)) {
 		eb_set_infty(r);
 		return;
 	}
 
-#if defined(EB_KBLTZ)
-	if (eb_curve_is_kbltz()) {
-		eb_mul_rtnaf_imp(r, p, k);
-		return;
-	}
-#endif
+	bn_null(m);
 
+	RLC_TRY {
+		bn_new(m);
+		eb_mul_red(m, k);
+		if (bn_is_zero(m)) {
+			eb_set_infty(r);
+		} else {
+#if defined(EB_KBLTZ)
+			if (eb_curve_is_kbltz()) {
+				eb_mul_rtnaf_imp(r, p, m);
+			}
+#endif
 #if defined(EB_PLAIN)
+			if (!eb_curve_is_kbltz()) {
 #if defined(EB_MIXED) && defined(STRIP)
-	/* It is impossible to run a right-to-left algorithm using ordinary curves
-	 * and only mixed additions. */
-	RLC_THROW(ERR_NO_CONFIG);
+				/* It is impossible to run a right-to-left algorithm using
+				 * ordinary curves and only mixed additions. */
+				RLC_THROW(ERR_NO_CONFIG);
 #else
-	eb_mul_rnaf_imp(r, p, k);
+				eb_mul_rnaf_imp(r, p, m);
 #endif
+			}
 #endif
+		}
+	}
+	RLC_CATCH_ANY {
+		RLC_THROW(ERR_CAUGHT);
+	}
+	RLC_FINALLY {
+		bn_free(m);
+	}
 }
 
 #endif
